@@ -246,7 +246,9 @@ class BlockingPortal:
         kwargs: dict[str, Any],
         future: Future[T_Retval],
     ) -> None:
-        event_loop_thread_id = self._event_loop_thread_id
+        # This always runs in the event loop thread; the portal's own copy of the thread ID
+        # is cleared by stop(), which may already have been called
+        event_loop_thread_id = get_ident()
 
         def callback(f: Future[T_Retval]) -> None:
             if f.cancelled():
